@@ -1,0 +1,11 @@
+//go:build !verif
+
+package json
+
+func verifTrace(event string, args ...int) {}
+
+func verifB(b bool) int { return 0 }
+
+func verifLine0(lines []int) int { return 0 }
+
+func verifOutLine0(out []jobOutRecord) int { return 0 }
